@@ -8,6 +8,14 @@
 (* the design check below and by the monitor KeepAliveMon, which evaluates    *)
 (* them on observations of the real code.                                     *)
 (*                                                                            *)
+(* Part 1b (constant level) is the dimension "transport x how a ping fails":  *)
+(* for a stream connection, the streamable HTTP client, the streamable HTTP   *)
+(* server pinging its client and the legacy SSE client, the concrete ways in  *)
+(* which a ping goes unanswered and what each is FOR THE PROPERTY - a miss of *)
+(* a possibly-live peer (tolerated up to the threshold) or the connection     *)
+(* being dead / the session terminated (outcome "d": it may end at once).     *)
+(* KeepAliveTr.tla runs the loop of Part 2 on scripts of these classes.       *)
+(*                                                                            *)
 (* Part 2 is the code-shaped state machine of the ticker loop: a ticker of    *)
 (* period Interval, one ping per tick with a timeout of Interval \div 2, the  *)
 (* consecutiveFailures counter, threshold normalisation, silent stop on       *)
@@ -155,6 +163,9 @@ Quiet(o) == \A j \in 1..Len(o.pings) :
 \* o.kaEarly: keep-alive loops alive right after the owner's Close has BEGUN (everything
 \* runnable has run, Close itself may still be waiting for a request handler to return): with
 \* no ping outstanding keep-alive must end there and then, not when the drain is over.
+\* A session that ended at a "d" ping was closed by nobody: what is left of keep-alive can only find
+\* out by its own pings failing, which by Completeness / Timing it has after Norm(T) intervals and a
+\* ping timeout - for such a session o.kaAlive is the census taken then (KeepAliveMon!DeadEnd).
 NoLeftovers(o) ==
   /\ (o.userClose >= 0 /\ Quiet(o)) => o.kaEarly = 0
   /\ o.kaAlive = 0
